@@ -253,6 +253,9 @@ func parseResolve(text string) (*resolveSchema, error) {
 		switch items := strings.Split(tl, " "); len(items) {
 		case 1: // This is a labeled requirement or an error.
 			requirement := items[0]
+			if requirement == "" {
+				return nil, fmt.Errorf("line %d: expected a requirement after the dependency type", r.line)
+			}
 			if requirement[0] != '$' && r.err == "" {
 				return nil, fmt.Errorf("line %d: expected a label, got %q", r.line, requirement)
 			}
